@@ -257,6 +257,21 @@ impl Dfa {
     pub fn all(k: usize) -> Dfa {
         Dfa { k, init: 0, acc: vec![true], delta: vec![0; k] }
     }
+    /// words of length between i and j all of whose letters are in mask
+    pub fn counter(k: usize, mask: u64, i: u32, j: u32) -> Dfa {
+        let n = j as usize + 2; // states 0..=j count letters, state j+1 is the sink
+        let sink = j as usize + 1;
+        let mut delta = vec![sink; n * k];
+        for q in 0..=j as usize {
+            for x in 0..k {
+                if mask >> x & 1 == 1 && q < j as usize {
+                    delta[q * k + x] = q + 1;
+                }
+            }
+        }
+        let acc: Vec<bool> = (0..n).map(|q| q <= j as usize && q >= i as usize).collect();
+        Dfa { k, init: 0, acc, delta }
+    }
     /// canonical DFA of the left quotient by one letter
     pub fn quotient(&self, x: usize) -> Dfa {
         let mut d = self.clone();
